@@ -4,6 +4,7 @@ package main
 // spec/hist/Hist.tla.
 
 import (
+	"bytes"
 	"encoding/json"
 	"io"
 	"math"
@@ -212,7 +213,8 @@ func nearEdge(x int64) (j int64, side float64, ok bool) {
 
 func histReplay(in io.Reader, raw bool, args []string) (*Summary, error) {
 	sum := &Summary{Rule: "one case per (shape, multiset of added lattice values) emitted by TLC with the expected counters and the admissible set of every quantile level k/16; values are added one at a time and after every Add exactly the specified counter must have moved; non-trivial = at least 2 values of which at least one lands in a bin; quantiles are also asked of a user-defined Histogram carrying the same counters"}
-	err := forEachCase(in, raw, func(c json.RawMessage) {
+	var handle func(c json.RawMessage, huge bool)
+	handle = func(c json.RawMessage, huge bool) {
 		var hc histCase
 		if e := json.Unmarshal(c, &hc); e != nil || hc.Shape.NBins == 0 {
 			sum.viol("machinery", c, "bad case: %v", e)
@@ -242,20 +244,30 @@ func histReplay(in io.Reader, raw bool, args []string) (*Summary, error) {
 		scale := 1.0
 		if sh.Kind == "lin" {
 			mn, mx := float64(sh.Min)/float64(sh.Unit), float64(sh.Max)/float64(sh.Unit)
+			// "any min < max": the same shape also stretched by a power of two (exactly) until its larger end is 2^1022 -
+			// a legal range whose span is finite but within a factor nbins of the largest float
+			S := 1.0
+			if huge {
+				S = math.Ldexp(1, 1022-int(math.Ceil(math.Log2(math.Max(math.Abs(mn), math.Abs(mx))))))
+				mn, mx = mn*S, mx*S
+			}
 			h = stats.NewLinearHist(mn, mx, sh.NBins)
 			val = func(x int64) float64 {
 				if v, ok := farValue(x); ok {
+					if huge && !math.IsInf(v, 0) {
+						return math.Copysign(math.MaxFloat64, v)
+					}
 					return v
 				}
 				if j, side, ok := nearEdge(x); ok { // just below / above bin edge j: 1e-10 of a bin width away
-					bw := (mx - mn) / float64(sh.NBins)
+					bw := mx/float64(sh.NBins) - mn/float64(sh.NBins)
 					return mn + (float64(j)+side*1e-10)*bw
 				}
-				return float64(x) / float64(sh.Unit)
+				return float64(x) / float64(sh.Unit) * S
 			}
 			w := big.NewRat(sh.Max-sh.Min, int64(sh.NBins)*sh.Unit)
 			b2v = func(t *big.Rat) float64 {
-				return rf(new(big.Rat).Add(big.NewRat(sh.Min, sh.Unit), new(big.Rat).Mul(t, w)))
+				return rf(new(big.Rat).Add(big.NewRat(sh.Min, sh.Unit), new(big.Rat).Mul(t, w))) * S
 			}
 			exactEdges = isPow2(w.Num()) && isPow2(w.Denom()) && isPow2(big.NewInt(sh.Unit))
 			scale = mx - mn
@@ -426,6 +438,15 @@ func histReplay(in io.Reader, raw bool, args []string) (*Summary, error) {
 			want := res[12] - res[4]
 			if !(math.IsNaN(iqr) && math.IsNaN(want)) && iqr != want {
 				sum.viol("HistogramIQR", c, "pass %d: IQR=%v want Q(.75)-Q(.25)=%v", pass, iqr, want)
+			}
+		}
+	}
+	nLin := 0
+	err := forEachCase(in, raw, func(c json.RawMessage) {
+		handle(c, false)
+		if bytes.Contains(c, []byte(`"kind":"lin"`)) || bytes.Contains(c, []byte(`"kind": "lin"`)) {
+			if nLin++; nLin%4 == 0 {
+				handle(c, true)
 			}
 		}
 	})
